@@ -332,6 +332,12 @@ fn mem_operand_address(opr: &bad64::Operand) -> Result<(il::Expression, MemOpera
             (indexed_address, MemOperandSideeffect::None)
         }
 
+        // PC-relative literal (ldr/ldrsw xN, label): the decoder gives the absolute address
+        bad64::Operand::Label(imm) => (
+            il::expr_const(imm_to_u64(imm), 64),
+            MemOperandSideeffect::None,
+        ),
+
         bad64::Operand::MemOffset { mul_vl: true, .. }
         | bad64::Operand::SmeTile { .. }
         | bad64::Operand::AccumArray { .. }
@@ -353,7 +359,6 @@ fn mem_operand_address(opr: &bad64::Operand) -> Result<(il::Expression, MemOpera
         | bad64::Operand::SysReg(_)
         | bad64::Operand::ImplSpec { .. }
         | bad64::Operand::Cond(_)
-        | bad64::Operand::Label(_)
         | bad64::Operand::Name(_)
         | bad64::Operand::StrImm { .. } => unreachable!("Memory operand is expected here"),
     };
